@@ -67,6 +67,33 @@ CLAIMS = {
         "note": TRUST,
         "technique": "sibling feature records vs spec table, loop-invariant index rule, clamp-dominates-use, sentinel/mask dataflow, guard engine",
     },
+    "C01": {
+        "text": "Inductive invariant over all operation histories, each induction step decided from source: the constructor converts or "
+                "rejects every value and always runs the uniformity check; DataFrameColumn broadcasts only length-1 input; assignment "
+                "stores only reconciled columns; base-class storage primitives occur only in the six writer methods and unchecked row "
+                "views never escape; generator methods return through the checked constructor; key/attribute bookkeeping is paired on "
+                "add and remove under satisfiable guards; colnames assignment is two-phase; vectors check ndim. Decides that "
+                "rectangularity and key/attribute coherence are preserved by every operation, not that stored values are right.",
+        "note": TRUST,
+        "technique": "must-pass-through and guard-dominates-site rules on per-function CFGs, who-may-call over resolved callees, store-separation reasoning, escape check via the E3 interpreter",
+    },
+    "C05": {
+        "text": "Necessary conditions of the five DataFrame joins for all inputs: typestate of the right-hand frame (drop_na then unique "
+                "on the right keys) at all four sites that build the key->row dict, agreement of the four joins, whole-row indexing "
+                "with corresponding found/src pairs and complementary semi/anti operators, NA value/dtype taken from one column, no "
+                "scalar broadcast to a possibly zero row count, by-tuple handling of renamed keys incl. the reverse join of full_join, "
+                "totality of reachable reductions on empty operands. Not decided: which rows match.",
+        "note": TRUST,
+        "technique": "typestate over def-use chains at call sites, sibling agreement, interval lower bounds for broadcast counts, guard engine",
+    },
+    "C12": {
+        "text": "Routing/symmetry of every reader-writer pair decided for all paths and suffixes: where the user's path flows (only "
+                "xopen, makedirs, delegated siblings, or APIs in the external summary table), which file is addressed, and whether "
+                "data is (de)compressed for '', .gz, .bz2, .xz -- writer and reader must agree and honour their docstrings; xopen's "
+                "suffix table; liveness of every option on both sides. Not decided: equality of values after the trip.",
+        "note": TRUST,
+        "technique": "taint-style path routing over resolved callees with an external summary table; option liveness; sibling agreement of csv dialect/delimiter",
+    },
 }
 
 PENDING = "check under construction in this session (static rule designed in DESIGN.md section 5, not yet implemented)"
